@@ -764,7 +764,8 @@ def r6(ctx):
                     sites.append((f, c, name, pos))
     sites.sort(key=lambda x: (x[1].lineno, x[1].col_offset))
     ctx.require(sites, "no _postfetch call found in orm/persistence.py")
-    for key, (f, c, name, pos) in ordinal_keys(sites, lambda x: f"{x[0].key}:{x[2]}:params-of-own-row"):
+    judged = []
+    for f, c, name, pos in sites:
         ctx.functions_analysed.add(f.key)
         kw = {k.arg: k.value for k in c.keywords if k.arg}
         arg = kw.get("params") if "params" in kw else (c.args[pos] if len(c.args) > pos else None)
@@ -772,7 +773,7 @@ def r6(ctx):
                     f"{f.key}: `params` argument of `{name}(...)` at line {c.lineno} not found")
         loop = _innermost_loop(pm, c, f.node)
         loc = f"{m.path}:{c.lineno}"
-        verdict, detail = None, ""
+        verdict, detail, tag = None, "", "per-record"
         if isinstance(arg, ast.Subscript) and _is_compiled_params(arg.value):
             res = _is_compiled_params(arg.value)
             idx = arg.slice
@@ -791,7 +792,7 @@ def r6(ctx):
                 elif same_iter:
                     verdict, detail = True, f"execute() and post-fetch in the same iteration, `[0]` is this record's set"
                 else:
-                    verdict = False
+                    verdict, tag = False, "after-executemany"
                     detail = (f"`{name}(...)` runs once per record in `for ... in {unparse(loop.iter)[:40]}` but receives "
                               f"`{unparse(arg)}` of the execute() at line {b.lineno}, which ran once for all records "
                               f"(executemany): every record is post-fetched with the FIRST row's prefetched default / "
@@ -800,7 +801,7 @@ def r6(ctx):
                 # index variable of the enclosing loop (enumerate)
                 tn = {n.id for n in ast.walk(loop.target) if isinstance(n, ast.Name)} if loop is not None else set()
                 enum = loop is not None and isinstance(loop.iter, ast.Call) and call_name(loop.iter) == "enumerate"
-                verdict = idx.id in tn and enum
+                verdict, tag = (idx.id in tn and enum), "after-executemany"
                 detail = f"indexed by the record's position `{idx.id}`" if verdict else \
                     f"`{unparse(arg)}`: `{idx.id}` is not the enumerate() index of the record loop"
             else:
@@ -811,10 +812,13 @@ def r6(ctx):
                 and any(_is_compiled_params(a) for a in loop.iter.args)
             ctx.require(arg.id in tn and zipped, f"{f.key}: `params={arg.id}` of `{name}(...)` at line {c.lineno} is not a loop variable "
                                                  f"zipped with compiled_parameters (not understood)")
-            verdict, detail = True, f"`{arg.id}` zipped with compiled_parameters per record"
+            verdict, detail, tag = True, f"`{arg.id}` zipped with compiled_parameters per record", "after-executemany"
         else:
             ctx.require(False, f"{f.key}: `params` argument `{unparse(arg)[:60]}` of `{name}(...)` not understood")
-        ctx.check(bool(verdict), key, detail, detail, loc)
+        judged.append((f, name, tag, bool(verdict), detail, loc))
+    for key, (f, name, tag, verdict, detail, loc) in ordinal_keys(
+            judged, lambda x: f"{x[0].key}:{x[1]}:params-of-own-row[{x[2]}]"):
+        ctx.check(verdict, key, detail, detail, loc)
 
 
 # ---------------------------------------------------------------------- self-test battery
